@@ -72,6 +72,7 @@ class FamRun:
         self.mstats = {}
         self.samples = []
         self.cases = 0
+        self.distinct = set()    # hashes of case bodies (distinct cases actually generated)
         self.rc = None
         self.crash = None
         self.transcript = None
@@ -127,7 +128,19 @@ def run_family(spec, tier, seed, workdir, extra=None, keep_name=None):
     # harness-side distribution + a few sample cases
     with open(tpath, errors="replace") as f:
         cur = None
+        h = None
+        nbody = 0
         for line in f:
+            if line.startswith("case "):
+                if h is not None and nbody > 0:
+                    fr.distinct.add(h.hexdigest())
+                h = hashlib.md5(); nbody = 0
+            elif line.startswith("endcase"):
+                if h is not None and nbody > 0:
+                    fr.distinct.add(h.hexdigest())
+                h = None
+            elif h is not None and nbody < 60:
+                h.update(line.encode()); nbody += 1
             if line.startswith("stat "):
                 parts = line.split()
                 if len(parts) == 3:
@@ -339,6 +352,7 @@ def finish(pid, tier, seed, cfg, obligations, runs, t0, rc, known_lines):
     mdist = {}
     samples = []
     evaluations = 0
+    distinct = 0
     checked = 0
     cmds = []
     for fr in runs:
@@ -349,6 +363,7 @@ def finish(pid, tier, seed, cfg, obligations, runs, t0, rc, known_lines):
         for s in fr.samples[:2]:
             samples.append({"family": fr.family, "lines": s})
         evaluations += fr.cases
+        distinct += len(fr.distinct)
         checked += fr.checked
         cmds.append(fr.cmd)
     thms = [o[0][8:] for o in obligations if o[0].startswith("theorem:")]
@@ -371,8 +386,8 @@ def finish(pid, tier, seed, cfg, obligations, runs, t0, rc, known_lines):
             "obligation_list": [{"name": o[0], "ok": o[1], "detail": o[2][:300]} for o in obligations],
             "evaluations": evaluations,
             "observations_checked_by_model": checked,
-            "distinct_nontrivial": evaluations,
-            "rule": cfg.get("rule", "cases are generated from (seed, case index); each case is a distinct random domain/forest/function choice; see distribution"),
+            "distinct_nontrivial": distinct,
+            "rule": cfg.get("rule", "cases are generated from (seed, case index); a case counts as distinct and non-trivial when its transcript body (first 60 records: domain, forests, inputs, observations) is non-empty and its hash differs from every other case of the run; see distribution_harness for what the generator exercised"),
             "samples": samples,
             "distribution_harness": dist,
             "distribution_model": mdist,
